@@ -23,8 +23,14 @@ def strategy():
     from hypothesis import strategies as st
     cfg = st.one_of(G.config(max_levels=1, free_p=0.0, posonly=False, nonreorderable=True, max_mws=5, all_kinds=False),
                     G.config(max_levels=3, free_p=0.0, posonly=False, nonreorderable=True, max_mws=6, all_kinds=False))
+    sib_mw = st.fixed_dictionaries({'tid': st.integers(0, 5), 'style': st.sampled_from(['func', 'method']),
+                                    'request': st.sampled_from([[], None]), 'endpoint': st.sampled_from([None, []]), 'render': st.just(None)}
+                                   ).map(lambda m: dict(m, unique=m['tid'] < 4, reorderable=True, provides=[], endpoint_provides=[], render_provides=[]))
+    sib = st.fixed_dictionaries({'level': st.integers(0, 2), 'pos': st.sampled_from(['before', 'before', 'after']),
+                                 'mws': st.lists(sib_mw, min_size=1, max_size=2, unique_by=lambda m: m['tid'])})
     return st.tuples(cfg, st.integers(0, 40), st.sampled_from(MW_DEV), st.sampled_from(['route', 'route', 'null']),
-                     st.sampled_from(['inner', 'inner', 'any', 'none']), st.sampled_from(['response', 'response', 'base', 'http']))
+                     st.sampled_from(['inner', 'inner', 'any', 'none']), st.sampled_from(['response', 'response', 'base', 'http']),
+                     st.lists(sib, max_size=2))
 
 
 def compare(ctx, w, r, ev, outcome, rc, what):
@@ -68,8 +74,13 @@ def compare(ctx, w, r, ev, outcome, rc, what):
 def body(case, ctx):
     cfg, pick, mwdev, target, where = case[:5]
     flavour = case[5] if len(case) > 5 else 'response'
-    rc = [cfg, pick, mwdev, target, where, flavour]
+    sibs = case[6] if len(case) > 6 else []
+    sibs = [dict(sb, level=sb['level'] % len(cfg['levels'])) for sb in sibs]
+    rc = [cfg, pick, mwdev, target, where, flavour, sibs]
     ctx.current = rc
+    cfg = dict(cfg, siblings=sibs)
+    if sibs:
+        ctx.event('with-sibling-routes')
     try:
         plan, rej = I.predict(cfg), None
     except I.Reject as r:
